@@ -35,6 +35,16 @@ Theorem C15_inflight_keep :
 Proof. exact inflight_keep. Qed.
 Print Assumptions C15_inflight_keep.
 
+(* BalTable RWMutex protocol (BalTableReload vs Lookup): in EVERY interleaving, no request looks its cluster up in the
+   half-built table that exists inside BalTableReload between emptying the old map and assigning the new one - the
+   writer holds t.lock for that whole span and Lookup takes the read lock. *)
+Theorem C15_baltable_lock :
+  forall (v g : Z) (ts : list thread) (sched : list nat),
+    Forall fresh_thread ts ->
+    forall i q, nth_error (threads (exec (mkState (init_shared v g) ts) sched)) i = Some (TReq q) -> rq_mid q = false.
+Proof. exact baltable_lock. Qed.
+Print Assumptions C15_baltable_lock.
+
 (* Non-vacuity: a request snapshots version 1, a reload to version 2 completes while the request is between its first
    and second lookup, the request still sees [1;1;1] although version 2 is installed at the end. *)
 Example C15_example :
@@ -50,3 +60,10 @@ Example C15_double_read_breaks :
     let st := fold_left step_bad sched (mkState (init_shared 1 1) [new_request; new_reload 2 true]) in
     all_consistent st = false.
 Proof. exact double_read_breaks. Qed.
+
+(* Non-vacuity for C15_baltable_lock: a lookup attempted while BalTableReload is between its two halves is blocked and,
+   once it runs, sees the complete new table (generation 2). *)
+Example C15_baltable_example :
+  let st := exec (mkState (init_shared 1 1) [new_greload 2; new_request]) [0;0;0;1;1;1;1;1;0;0;1]%nat in
+  nth_error (threads st) 1 = Some (TReq (mkRequest 5 (Some 1) [1;1;1] (Some 2) false)).
+Proof. exact baltable_example. Qed.
